@@ -169,4 +169,63 @@ theorem unitLast_eq_find {l : List (PU × Rat)} (hd : (l.map (·.1)).Nodup) (p :
       · rw [if_neg he, List.find?_cons_of_neg (by simpa using he), ih _ hd.2]
   exact gen l 0 hd
 
+/-! ### the management-actions matrix -/
+
+theorem activeIn_cons (a : Action) (as : List Action) (b : Bool) (bs : List Bool) (p : PU) (t : ActType) :
+    activeIn (a :: as) (b :: bs) p t = ((b && decide (a.pu = p) && decide (a.typ = t)) || activeIn as bs p t) := by
+  simp [activeIn, List.zip_cons_cons, List.any_cons]
+
+/-- no action of `as` has the key (p, t): nothing of that key is active among them -/
+theorem activeIn_false_of_no_key {as : List Action} {bs : List Bool} {p : PU} {t : ActType}
+    (h : ∀ a ∈ as, ¬ (a.pu = p ∧ a.typ = t)) : activeIn as bs p t = false := by
+  induction as generalizing bs with
+  | nil => simp [activeIn]
+  | cons a as ih =>
+    cases bs with
+    | nil => simp [activeIn]
+    | cons b bs =>
+      rw [activeIn_cons, ih (fun a' ha' => h a' (List.mem_cons_of_mem _ ha'))]
+      have := h a List.mem_cons_self
+      by_cases h1 : a.pu = p <;> by_cases h2 : a.typ = t <;> simp_all
+
+/-- with distinct (unit, type) keys the cell of an action's own unit and type IS that action's flag -/
+theorem activeIn_own {acts : List Action} (hK : KeysDistinct acts) {flags : List Bool}
+    (hl : flags.length = acts.length) (i : Nat) (hi : i < acts.length) :
+    activeIn acts flags acts[i].pu acts[i].typ = flags[i]'(hl ▸ hi) := by
+  induction acts generalizing flags i with
+  | nil => cases hi
+  | cons a as ih =>
+    cases flags with
+    | nil => cases hl
+    | cons b bs =>
+      have hK' : (as.all (fun a' => !(decide (a.pu = a'.pu) && decide (a.typ = a'.typ))) && keysDistinct as) = true := hK
+      rw [Bool.and_eq_true, List.all_eq_true] at hK'
+      rw [activeIn_cons]
+      cases i with
+      | zero =>
+        have hno : activeIn as bs a.pu a.typ = false := by
+          apply activeIn_false_of_no_key
+          intro a' ha' hk
+          have := hK'.1 a' ha'
+          simp [hk.1, hk.2] at this
+        simp [hno]
+      | succ j =>
+        have hj : j < as.length := Nat.lt_of_succ_lt_succ hi
+        have hne : ¬ (a.pu = as[j].pu ∧ a.typ = as[j].typ) := by
+          intro hk
+          have := hK'.1 as[j] (List.getElem_mem hj)
+          simp [hk.1, hk.2] at this
+        have hfirst : (b && decide (a.pu = as[j].pu) && decide (a.typ = as[j].typ)) = false := by
+          by_cases h1 : a.pu = as[j].pu <;> by_cases h2 : a.typ = as[j].typ <;> simp_all
+        simp only [List.getElem_cons_succ]
+        rw [hfirst, Bool.false_or]
+        exact ih hK'.2 (Nat.succ.inj hl) j hj
+
+theorem mem_typesPresent {acts : List Action} {a : Action} (ha : a ∈ acts) : a.typ ∈ typesPresent acts := by
+  unfold typesPresent
+  rw [List.mem_filter]
+  refine ⟨by cases a.typ <;> simp [actionTypes], ?_⟩
+  rw [List.any_eq_true]
+  exact ⟨a, ha, by simp⟩
+
 end Crem.Catchment
